@@ -356,7 +356,7 @@ func main() {
 	defer tr.Close()
 
 	e := newEnv()
-	r := &runner{e: e, tr: tr, maxCq: 2600}
+	r := &runner{e: e, tr: tr, maxCq: 3400}
 
 	if a.Tier == "thorough" {
 		r.maxCq = 12000
